@@ -13,11 +13,12 @@
     directory `x/` next to `x.py` contributes its suites to the suite of `x.py` (documented merge);
   * "declaration order" = rank order; for symbols without explicit `rank=` the global counter makes
     this the textual order (`tests_in_declaration_order`, `classes_in_declaration_order`);
-  * hidden = `@lcc.hidden()` or `@lcc.visible_if(c)` with `c(obj)` false, on a test, a class, or a
-    module (`SUITE["visible_if"]`).  Hiding a module hides what the *module* declares; a directory of
+  * hidden = `@lcc.hidden()` or `@lcc.visible_if(c)` with `c(obj)` a *false value* (any Python value:
+    `None`, `0`, `''`, `[]`, an instance whose `__bool__`/`__len__` says so, … — `PyVal.truthy`), on a
+    test, a class, or a module (`SUITE["visible_if"]`); section 3b.  Hiding a module hides what the *module* declares; a directory of
     the same name is a separate item and is still loaded (under a synthetic suite of that name).
 -/
-import LccModel.Lemmas.LoaderDunder
+import LccModel.Lemmas.LoaderVis
 
 namespace LccModel.C13
 open LccModel.Loader
@@ -94,6 +95,98 @@ theorem hidden_classes_only_omitted (h : ClsHead) (tests : List TestDecl) (subs 
     every symbol. -/
 theorem each_symbol_exactly_once (ds : List TestDecl) : (declTests ds).Perm (ds.flatMap declDecl) :=
   declTests_perm ds
+
+/-! ## 3b. `visible_if`: the truth value of *whatever* the callable returns decides
+
+  Sections 1–3 quantify over every `Vis`, hence over every value `v : PyVal` a condition may return.
+  Here the decision itself: closed form, the expression the code evaluates, and its effect at the
+  three levels (test, suite class, module). -/
+
+/-- An item carrying `@lcc.visible_if(c)` is declared visible iff `c(obj)` is a true value. -/
+theorem visible_if_decided_by_truth_value (st : Bool) (v : PyVal) : (Vis.cond st v).visible = v.truthy := rfl
+
+/-- The false values, exhaustively: `None`, `False`, `0`, `0.0`, `-0.0`, `''`, empty `list` / `tuple` /
+    `dict`, an instance whose `__bool__` returns `False`, an instance (without `__bool__`) of length 0.
+    Everything else — `'0'`, `'False'`, `[0]`, `nan`, `object()` … — shows the item. -/
+theorem falsy_values_exactly (v : PyVal) :
+    v.truthy = false ↔
+      (v = .none ∨ v = .bool false ∨ v = .int 0 ∨ v = .float (.fin 0) ∨ v = .float .negZero ∨ v = .str "" ∨
+       v = .list 0 ∨ v = .tuple 0 ∨ v = .dict 0 ∨ v = .objBool false ∨ v = .objLen 0) :=
+  PyVal.truthy_eq_false_iff v
+
+/-- **The loader's expression.**  `hidden = md.condition is not None and not md.condition(obj)`, read by
+    `if not x.hidden` (`_load_tests`, `load_suites_from_classes`, `load_suites_from_files`,
+    `load_suites_from_directory`): the item is kept iff the returned value is true — for every value and
+    every kind of callable (function, lambda, callable instance, callable instance that is itself a false
+    value). -/
+theorem loader_expression_is_truth_value (st : Bool) (v : PyVal) : (Vis.cond st v).shown = v.truthy := by
+  rw [Vis.shown_eq_visible]; rfl
+
+/-- … and in general it is `Vis.visible`: `@lcc.hidden()` hides, no condition shows. -/
+theorem loader_expression (vis : Vis) : vis.shown = vis.visible := Vis.shown_eq_visible vis
+
+/-- **D36 (repaired).**  A condition callable that is itself a false value is consulted exactly like any
+    other: the item is shown iff the value it returns is true.  (Before the repair `md.condition and …`
+    short-circuited on the callable's own truth value and always showed the item.) -/
+theorem falsy_callable_condition_consulted (v : PyVal) :
+    (Vis.cond false v).shown = v.truthy ∧ (Vis.cond false v).shown = (Vis.cond true v).shown := by
+  simp only [Vis.shown_eq_visible]; exact ⟨rfl, rfl⟩
+
+/-- The attribute `.hidden` is always a real boolean (`False` without condition) — never `None`, never
+    the condition's own return value, never the callable. -/
+theorem hidden_attribute_shape (vis : Vis) : vis.hiddenAttr = .bool (!vis.visible) := Vis.hiddenAttr_bool vis
+
+/-- **Test level.**  What the specification lists for a conditional test symbol … -/
+theorem conditional_test_listed_iff_truthy (d : TestDecl) (st : Bool) (v : PyVal) (hv : d.vis = .cond st v) :
+    declDecl d = if v.truthy then expansions d else [] := declDecl_cond hv
+
+/-- … and what `_load_tests` yields for it (all its parameter sets, or nothing). -/
+theorem conditional_test_yielded_iff_truthy (d : TestDecl) (st : Bool) (v : PyVal) (hv : d.vis = .cond st v)
+    (hk : templatesOk d = true) :
+    expandDecl d = if v.truthy then (expansions d).map .ok else [] := expandDecl_cond hv hk
+
+/-- **Class level.**  A loaded class suite is flagged hidden iff its condition value is false … -/
+theorem conditional_class_hidden_iff_falsy (c : Cls) (s : Suite) (st : Bool) (v : PyVal)
+    (hv : c.head.vis = .cond st v) (h : loadClass c = .ok s) : s.hidden = !v.truthy := by
+  rw [loadClass_hidden h, hv]; rfl
+
+/-- … the sub-suites kept by `load_suites_from_classes` are exactly the classes whose `Vis` is visible,
+    in discovery order, each loaded by `load_suite_from_class` … -/
+theorem conditional_classes_kept_iff_visible (c : Cls) (s : Suite) (h : loadClass c = .ok s) :
+    Forall₂ (fun c' s' => loadClass c' = .ok s') (visibleClasses c.subs) s.subs := (loadClass_good h).subs
+
+theorem visible_classes_iff (cs : List Cls) (c : Cls) :
+    c ∈ visibleClasses cs ↔ c ∈ cs ∧ c.head.vis.visible = true := mem_visibleClasses
+
+/-- … and what the class contributes to the declared list. -/
+theorem conditional_class_listed_iff_truthy (c : Cls) (st : Bool) (v : PyVal) (hv : c.head.vis = .cond st v) :
+    declCls c = if v.truthy then underSuite c.head.suiteName (declClsBody c) else [] := by
+  unfold declCls; rw [hv]; rfl
+
+/-- **Module level.**  `SUITE["visible_if"]`: the loaded module suite is flagged hidden iff the value is
+    false; `load_suites_from_directory` enters it in its table iff the value is true, and
+    `load_suites_from_files` returns it iff the value is true and the suite is not empty. -/
+theorem conditional_module_hidden_iff_falsy (m : Module) (s : Suite) (i : SuiteInfo) (st : Bool) (v : PyVal)
+    (hi : m.info = some i) (hv : i.vis = .cond st v) (h : loadFile m = .ok s) : s.hidden = !v.truthy := by
+  rw [loadFile_hidden_of_info h hi, hv]; rfl
+
+theorem conditional_module_in_table_iff_truthy (m : Module) (s : Suite) (i : SuiteInfo) (st : Bool) (v : PyVal)
+    (hi : m.info = some i) (hv : i.vis = .cond st v) (h : loadFile m = .ok s) :
+    loadModTable [m] = .ok (if v.truthy then [(Key.file m.stem, s)] else []) := by
+  rw [loadModTable_single h, conditional_module_hidden_iff_falsy m s i st v hi hv h]
+  cases v.truthy <;> rfl
+
+theorem conditional_module_in_files_iff_truthy (m : Module) (s : Suite) (i : SuiteInfo) (st : Bool) (v : PyVal)
+    (hi : m.info = some i) (hv : i.vis = .cond st v) (h : loadFile m = .ok s) :
+    loadFiles [m] = .ok (if v.truthy && !s.isEmpty then [s] else []) := by
+  rw [loadFiles_single h, conditional_module_hidden_iff_falsy m s i st v hi hv h]
+  cases v.truthy <;> rfl
+
+/-- Non-vacuity: false values that are not `False`, true values that are not `True` — on all levels. -/
+example : (declTests [{ attr := "a", rank := 1, vis := .cond true .none }, { attr := "b", rank := 2, vis := .cond true (.str "0") },
+                      { attr := "c", rank := 3, vis := .cond true (.int 0) }, { attr := "d", rank := 4, vis := .cond true (.list 1) },
+                      { attr := "e", rank := 5, vis := .cond true (.float .negZero) }, { attr := "f", rank := 6, vis := .cond true (.float .nan) }]).map
+    (·.name) = ["b", "d", "f"] := by decide
 
 /-! ## 4. Parametrized tests -/
 
@@ -238,17 +331,17 @@ private def t (attr : String) (rank : Int) : TestDecl := { attr := attr, rank :=
 
 /-- `suites/`: `a.py` (function `t1`, hidden `t2`, parametrized `t3` ×2, class `K` with nested `N`),
     `a/x.py` (companion directory), `b.py` = only class `b` (collapse), `d/y.py` (no `d.py`),
-    `h.py` hidden by `SUITE["visible_if"]`. -/
+    `h.py` hidden by a `SUITE["visible_if"]` returning `None`; `K.k2` by a condition returning `0`. -/
 def exDir : Dir :=
   .mk "suites"
     [ { stem := "a", autoRank := 9,
         tests := [t "t1" 1, { t "t2" 2 with vis := .hidden },
                   { t "t3" 3 with param := some ([[("i", .int 1)], [("i", .int 2)]], .default) }],
-        classes := [.mk { attr := "K", rank := 8 } [t "k1" 4, { t "k2" 5 with vis := .cond false }]
+        classes := [.mk { attr := "K", rank := 8 } [t "k1" 4, { t "k2" 5 with vis := .cond true (.int 0) }]
                       [.mk { attr := "N", rank := 7 } [{ t "n1" 6 with disabled := .yes }] []]] },
       { stem := "b", autoRank := 13,
         classes := [.mk { attr := "b", rank := 12, desc := some "The b suite" } [t "b1" 10, t "b2" 11] []] },
-      { stem := "h", autoRank := 15, info := some { vis := .cond false }, tests := [t "h1" 14] } ]
+      { stem := "h", autoRank := 15, info := some { vis := .cond true .none }, tests := [t "h1" 14] } ]
     [ .mk "a" [{ stem := "x", autoRank := 17, tests := [t "x1" 16] }] [],
       .mk "d" [{ stem := "y", autoRank := 19, tests := [t "y1" 18] }] [] ]
 
@@ -304,7 +397,7 @@ theorem top_level_duplicates_accepted : paths (loadDir (.mk "suites"
 
 /-- A hidden module's companion directory is still loaded, under a synthetic suite of that name. -/
 example : paths (loadDir (.mk "suites"
-    [{ stem := "h", autoRank := 2, info := some { vis := .cond false }, tests := [t "h1" 1] }]
+    [{ stem := "h", autoRank := 2, info := some { vis := .cond true (.str "") }, tests := [t "h1" 1] }]
     [.mk "h" [{ stem := "s", autoRank := 4, tests := [t "s1" 3] }] []])) = some [["h", "s", "s1"]] := by decide
 
 /-- Errors other than duplicates: import failure, constructor failure, missing template key. -/
@@ -349,7 +442,8 @@ theorem dunder_member_refutes_exactness :
     exact absurd hp (by decide)
 
 /-- `load_suites_from_directory`, real entry point, **partial**: exact on every layout in which no
-    suite class has a member named `__…`.  Missing for full strength: exactly that guard. -/
+    suite class has a member named `__…` (falsy condition callables included: D36 is repaired, section 9).
+    Missing for full strength: exactly that guard. -/
 theorem load_directory_exact_partial (d : Dir) (ss : List Suite) (hnd : noDunderDir d = true)
     (h : loadDirReal d = .ok ss) : Suite.entriesList ss = declDir d := by
   unfold loadDirReal at h
@@ -378,5 +472,34 @@ theorem load_directory_real_exact_on_stripped (d : Dir) (ss : List Suite) (h : l
 /-- The guard is satisfiable by the non-trivial example layout. -/
 example : noDunderDir exDir = true := by decide
 example : noDunderDir dunderWitness = false := by decide
+
+/-! ## 9. Finding D36 (repaired): a `visible_if` condition that is itself a false value
+
+  Before the repair `hidden = md.condition and not md.condition(obj)` tested the truth value of the
+  *callable* first: a callable instance whose class defines `__bool__` / `__len__` and is false was never
+  called, and the item was shown although `condition(obj)` returned a false value.  The repaired code
+  tests `md.condition is not None`; the model follows (`Vis.hiddenAttr`), `loader_expression` and
+  `falsy_callable_condition_consulted` hold for every callable, and the exactness theorems need no guard
+  for this input class.  The former witness stays as a positive example (and as corpus case
+  `WITNESS_D36` of the stream). -/
+
+/-- Former witness: `m.py` with a test `gated` under `@lcc.visible_if(c)`, `c` a falsy callable returning `False`. -/
+def falsyCondWitness : Dir :=
+  .mk "suites" [{ stem := "m", autoRank := 3,
+                  tests := [{ t "gated" 1 with vis := .cond false (.bool false) }, t "normal" 2] }] []
+
+/-- The conditionally invisible test is omitted, by the loader and by the specification alike. -/
+example : paths (loadDirReal falsyCondWitness) = some [["m", "normal"]] := by decide
+example : (declDir falsyCondWitness).map (·.1) = [["m", "normal"]] := by decide
+
+/-- With a falsy callable returning a true value the test is shown. -/
+example : paths (loadDirReal (.mk "suites"
+    [{ stem := "m", autoRank := 3, tests := [{ t "gated" 1 with vis := .cond false (.str "0") }, t "normal" 2] }] []))
+    = some [["m", "gated"], ["m", "normal"]] := by decide
+
+/-- Exactness on the former witness class, as an instance of the main theorem (no guard needed). -/
+theorem falsy_condition_callable_exact (ss : List Suite) (h : loadDirReal falsyCondWitness = .ok ss) :
+    Suite.entriesList ss = declDir falsyCondWitness :=
+  load_directory_exact_partial falsyCondWitness ss (by decide) h
 
 end LccModel.C13
